@@ -19,6 +19,7 @@ package window
 import (
 	"context"
 	"fmt"
+	"github.com/rulego/streamsql/utils/verifhook"
 	"log"
 	"sync"
 	"sync/atomic"
@@ -538,10 +539,12 @@ func (tw *TumblingWindow) checkAndTriggerWindows(watermarkTime time.Time) {
 			if len(resultData) > 0 {
 				callback := tw.callback
 				tw.mu.Unlock()
+				verifhook.Yield("tumbling.trigger.unlocked")
 				if callback != nil {
 					callback(resultData)
 				}
 				tw.sendResult(resultData)
+				verifhook.Yield("tumbling.trigger.relock")
 				tw.mu.Lock()
 			}
 
